@@ -120,12 +120,13 @@ def batch_policies(cases: list[dict], tmpl_env):
     c0 = cases[0]
     S = c0["S"]
     n = len(cases)
-    pol = ScriptedAC(tmpl_env, np.asarray(c0["script"]), c0.get("V"), c0.get("LP0"))
+    pol = ScriptedAC(tmpl_env, np.asarray(c0["script"]), c0.get("V"), c0.get("LP0"), c0.get("VS", 0.0))
     dtype = pol.script.dtype
     script = jnp.asarray(np.asarray([c["script"] for c in cases]), dtype=dtype)
     V = jnp.asarray(np.asarray([c.get("V") or default_V(S).tolist() for c in cases]), dtype=float)
     LP0 = jnp.asarray(np.asarray([c.get("LP0") or default_LP0(S).tolist() for c in cases]), dtype=float)
-    new = eqx.tree_at(lambda p: (p.script, p.V, p.LP0), pol, (script, V, LP0))
+    VS = jnp.asarray(np.asarray([c.get("VS", 0.0) for c in cases]), dtype=float)
+    new = eqx.tree_at(lambda p: (p.script, p.V, p.LP0, p.VS), pol, (script, V, LP0, VS))
     leaves, treedef = jax.tree.flatten(new)
     t_leaves = jax.tree.leaves(pol)
     out = []
